@@ -1,7 +1,8 @@
 (* C15 -- functions whose extracted effect skeleton is NOT proved free of argument mutation (their checked summary lists a
-   possibly written parameter): either the may-alias abstraction is too coarse for the function itself (run-time alias
-   tests such as out.data_ptr() == data.data_ptr() or "out is tensor", containers rebuilt with list(...), item assignment
-   into dictionaries of fresh tensors) or it calls such a function with one of its arguments (summaries are
+   possibly written parameter): either the may-alias abstraction is too coarse for the function itself (conv: `tensor = data.type(dtype)` is
+   data itself only for floating point data, and round_() is applied only for non floating point data; round_decimals:
+   `if out is tensor: tensor *= scale` writes the argument only when the caller passes it as `out`; containers rebuilt with
+   list(...), item assignment into dictionaries of fresh tensors; the data_ptr test of grid_sample IS understood by the translator) or it calls such a function with one of its arguments (summaries are
    interprocedural: a possibly-writing callee makes its callers possibly-writing).  They are covered
    by the runtime sweep of tools/impl/c15_impl.py only.  Everything else in Gen/MutSkeleton.v is proved clean by
    Props/C15.v; a function may only be added here with a reason. *)
@@ -20,9 +21,6 @@ Definition heap_unproven : list string := [
   "deepali/core/flow.py:jacobian_matrix";
   "deepali/core/flow.py:lie_bracket";
   "deepali/core/flow.py:logv";
-  "deepali/core/flow.py:sample_flow";
-  "deepali/core/flow.py:warp_image";
-  "deepali/core/flow.py:warp_points";
   "deepali/core/functional.py:compose_svfs";
   "deepali/core/functional.py:conv";
   "deepali/core/functional.py:curl";
@@ -32,9 +30,6 @@ Definition heap_unproven : list string := [
   "deepali/core/functional.py:evaluate_cubic_bspline";
   "deepali/core/functional.py:flow_derivatives";
   "deepali/core/functional.py:gaussian_pyramid";
-  "deepali/core/functional.py:grid_resample";
-  "deepali/core/functional.py:grid_sample";
-  "deepali/core/functional.py:grid_sample_mask";
   "deepali/core/functional.py:homogeneous_matrix";
   "deepali/core/functional.py:jacobian_det";
   "deepali/core/functional.py:jacobian_dict";
@@ -42,27 +37,17 @@ Definition heap_unproven : list string := [
   "deepali/core/functional.py:lie_bracket";
   "deepali/core/functional.py:logv";
   "deepali/core/functional.py:round_decimals";
-  "deepali/core/functional.py:sample_flow";
-  "deepali/core/functional.py:sample_image";
   "deepali/core/functional.py:spatial_derivatives";
   "deepali/core/functional.py:tensordot";
-  "deepali/core/functional.py:transform_points";
   "deepali/core/functional.py:upsample";
-  "deepali/core/functional.py:warp_image";
-  "deepali/core/functional.py:warp_points";
   "deepali/core/image.py:conv";
   "deepali/core/image.py:downsample";
   "deepali/core/image.py:gaussian_pyramid";
-  "deepali/core/image.py:grid_resample";
-  "deepali/core/image.py:grid_sample";
-  "deepali/core/image.py:grid_sample_mask";
-  "deepali/core/image.py:sample_image";
   "deepali/core/image.py:spatial_derivatives";
   "deepali/core/image.py:upsample";
   "deepali/core/linalg.py:homogeneous_matrix";
   "deepali/core/linalg.py:tensordot";
   "deepali/core/math.py:round_decimals";
-  "deepali/core/pointset.py:transform_points";
   "deepali/losses/functional.py:be_loss";
   "deepali/losses/functional.py:bending_energy";
   "deepali/losses/functional.py:bending_loss";
@@ -74,7 +59,6 @@ Definition heap_unproven : list string := [
   "deepali/losses/functional.py:divergence_loss";
   "deepali/losses/functional.py:elasticity_loss";
   "deepali/losses/functional.py:grad_loss";
-  "deepali/losses/functional.py:inverse_consistency_loss";
   "deepali/losses/functional.py:total_variation_loss";
   "deepali/losses/functional.py:tv_loss"].
 
